@@ -190,6 +190,14 @@ def run(r) -> None:
             for dt in ("float64", "float32"):
                 for sh in ("zero", "far"):
                     cases.append(dict(dim=dim, kernel=kernel, dtype=dt, dx=lagcomm.DXS[1], base_cells=mid if dim == 2 else [m[:1] for m in mid], shift=sh))
+    # spacings larger than one
+    for dim in (2, 3):
+        shape = lagcomm.SHAPES[dim]
+        mid = [[shape[dim - 1 - k] // 2, 2] for k in range(dim)]
+        for kernel in ("cosine", "peskin"):
+            for dt in ("float64", "float32"):
+                for dx in lagcomm.LARGE_DXS:
+                    cases.append(dict(dim=dim, kernel=kernel, dtype=dt, dx=dx, base_cells=mid if dim == 2 else [m[:1] for m in mid]))
     res = r.run_cases("offset-lattice", "lattice", cases)
     agg = {}
     slips = 0
@@ -203,6 +211,6 @@ def run(r) -> None:
     r.extra["positions_where_floor_index_slipped"] = slips
     r.bounds = {"offsets_per_axis": [f"{o[0]}:{o[1]}{o[2]:+d}ulp" for o in offsets_alphabet(np.float64)], "crossed_over_all_axes": True,
                 "base_cells": "{n/2, 2, 3, n-3} per axis" + (" (3-D: at most one axis away from n/2)" if quick else " (full cross)"),
-                "dx": lagcomm.DXS, "grid_origins": lagcomm.SHIFTS, "shapes": lagcomm.SHAPES, "batch": lagcomm.N_BATCH, "marker_counts": [1, lagcomm.N_BATCH, 512]}
+                "dx": lagcomm.DXS + lagcomm.LARGE_DXS, "grid_origins": lagcomm.SHIFTS, "shapes": lagcomm.SHAPES, "batch": lagcomm.N_BATCH, "marker_counts": [1, lagcomm.N_BATCH, 512]}
     r.extra["rule"] = "one state per marker position of the offset lattice (all axes crossed); every position goes through the real support/weights/interpolation closures"
     r.assumptions = ["numba closures compiled with fastmath: inputs contain no NaN/inf; tolerances 4 eps (4 + |x|/dx) relative to (1/dx)^d"]
